@@ -699,6 +699,33 @@ pub fn families_c14(subjects: &[Subj]) -> Vec<Pair> {
 			));
 		}
 	}
+	// K2b: every acquiring entry point insists on a key: something that is not
+	// a key (`()`, `&mut ()`, a number) in the key position must be rejected.
+	// Depends on each function's own signature: every API variant, both tiers.
+	for s in Subj::all_with_apis() {
+		let n = s.name();
+		let decl = s.decl();
+		let sm = s.scoped_write_method();
+		let suffix = if s.is_try() { ".ok();" } else { ";" };
+		for (what, arg) in [("unit", "()"), ("&mut unit", "&mut ()"), ("u8", "0u8")] {
+			v.push(pair_from(
+				"C14",
+				"K2-acquiring-api-accepts-a-non-key",
+				format!("{n}: {sm}({what})"),
+				&wrap_fn(&format!("    let mut key = ThreadKey::get().unwrap();\n    {decl}\n@@\n")),
+				&format!("    let _r = s.{sm}(&mut key, |_x| ()){suffix}"),
+				&format!("    let _r = s.{sm}({arg}, |_x| ()){suffix}"),
+			));
+		}
+		v.push(pair_from(
+			"C14",
+			"K2-acquiring-api-accepts-a-non-key",
+			format!("{n}: guard api (unit)"),
+			&wrap_fn(&format!("    let key = ThreadKey::get().unwrap();\n    {decl}\n@@\n")),
+			&format!("    let g = {};\n    drop(g);", s.acquire("s", "key")),
+			&format!("    let g = {};\n    drop(g);", s.acquire("s", "()")),
+		));
+	}
 	// key-level families (no subject)
 	let t = wrap_fn("    let key = ThreadKey::get().unwrap();\n@@\n    drop(key);\n");
 	v.push(pair_from("C14", "K3-key-clone", "ThreadKey".into(), &t, "    let k2 = &key;", "    let k2 = key.clone();"));
